@@ -85,7 +85,7 @@ CHECKS = {
     "C14": dict(
         category="model_checking", engine="E2", design_ref="DESIGN.md 2.2, 3/C14",
         technique="explicit-state breadth-first search over operation histories on the real objects, canonical state hashing, differential oracle shared-vs-fresh on every transition",
-        text=("BFS over histories of <= 3 (thorough 4) operations from a pool of 47 (parse/serialize/JSON decode/encode, succeeding and failing, both handlers, models "
+        text=("BFS over histories of <= 3 (thorough 4) operations from a pool of 45 (parse/serialize/JSON decode/encode, succeeding and failing, both handlers, models "
               "built to collide on shared state: a namespace-less child under two parents, xsi:type lookups incl. one name in two hierarchies, wildcard memo, prefix re-binding, modules imported between "
               "calls, a serializer with its own globalns, one compound field fed strings that select different choices) applied to one shared XmlContext + parsers + serializers. States are real objects rebuilt by replaying the history and deduplicated by a generic "
               "canonical hash of every slot of those objects and of all cached XmlMeta/XmlVar. Invariant on every transition: result on shared instances == result on fresh instances."),
